@@ -7,7 +7,9 @@ PID = "C19"
 RULE = ("Every history of length 1..L (L=4 quick, 6 thorough) over {hooked setsockopt SO_RCVTIMEO=0, SO_RCVTIMEO=20ms, SO_SNDTIMEO=40ms, query recv/send_time_limit, hooked recv with nothing to read (observes the limit the call really applies), "
         "hooked close + new socket (descriptor number reuse)} on one descriptor slot; batches of histories share a process, so limits cached for a closed descriptor meet the reused number. Model fd -> (rcv,snd) from the history itself, cross-checked with native getsockopt; "
         "limit queries must equal the model (0 => unlimited), the timed-out recv must take about the limit, and the process must survive (abort/panic = violation, the history logged before each step is the replay). "
-        "Non-trivial = history with a set and >= 2 steps; distinct = history.")
+        "Non-trivial = history with a set and >= 2 steps; distinct = history. "
+        "Added: real LD_PRELOAD interposition (wl-hook scenario 6; the hook library does not interpose close): a task on TCP loopback sets SO_RCVTIMEO (20/40/60 ms) through libc, a recv on the empty socket must give up after about that long, "
+        "then either the option is cleared to 0 or both ends are closed with libc close and a new connection takes the same numbers; the next recv (native getsockopt says: no limit) must wait for 4 bytes a plain thread writes 150 ms later instead of giving up after the old limit.")
 
 def run(tier, seed, t0):
     L = 6 if tier == "thorough" else 4
@@ -24,7 +26,21 @@ def run(tier, seed, t0):
             return ("violated", f"{PID}/process-crashed", f"history {h}: rc={rc}")
         return vlib.default_crash_policy(case, rc, timed_out, tail)
     cases = vlib.fan_out([os.path.join(d, "sys"), "sockopt", "--len", str(L)], n, engine="native", case_timeout=60, crash_policy=pol, jobs=32, shard=max(30, n // 96))
+    # the deployed path: libc calls interposed by the preloaded hook library, where close is NOT interposed
+    from checks import common_hook as ch
+    def hpol(case, rc, timed_out, tail):
+        if not timed_out and (rc in (-6, 134) or "panicked" in tail):
+            return ("violated", f"{PID}/interposed/process-aborted", tail[-400:])
+        return vlib.default_crash_policy(case, rc, timed_out, tail)
+    try:
+        cases += ch.cases(PID, seed, tier, 10 if tier != "thorough" else 60, crash_policy=hpol)
+        if tier == "thorough":
+            cases += ch.memcheck_cases(PID, seed, 6)
+    except vlib.BuildError as e:
+        c = vlib.Case(7_000_000); c.engine = "LD_PRELOAD interposition"; c.verdict = "inconclusive"; c.sig = "harness/hook-dylib-build-failed"; c.detail = str(e); cases.append(c)
     def rb(c):
+        if c.idx >= 7_000_000:
+            return ch.replay_cmd(c, seed)
         return {"cmd": f"/verif/wl-core/target/release/sys sockopt --len {L} --from {max(0,c.idx-40)} --to {c.idx+1}", "note": "the preceding histories are part of the replay: they leave cached limits behind"}
     return vlib.finish(PID, tier, seed, "exploration", cases, rule=RULE, t0=t0, replay_builder=rb, extra_cov={"exhaustive": True, "history_length": L},
                        assumptions=["options are set through the hooked setsockopt (in a hooked process every libc call is)", "kernel rounds timeouts to its tick; values used are multiples of 4 ms"])
